@@ -14,68 +14,11 @@ would rasterise.  `expandAll` is the trait's default `ColorPainter::fill_glyph` 
 `fill_glyph` call (push_clip_glyph; [push_transform]; fill; [pop_transform]; pop_clip).
 -/
 import FontVerif.Model.Paint
+import FontVerif.Model.PaintObs
 import FontVerif.Lemmas.Paint
 set_option linter.unusedVariables false
 namespace FontVerif.C13Fill
 open FontVerif FontVerif.Paint
-
-/-- the default `fill_glyph` applied to every `fill_glyph` call of a stream -/
-def expandAll (l : List Event) : List Event :=
-  l.flatMap (fun e => match e with
-    | .fillGlyph g bt b => expandFillGlyph g bt b
-    | e => [e])
-
-/-- an open scope as a rasteriser sees it -/
-inductive Scope where
-  | t (w : TWord)
-  | clipG (g : Gid) (ctm : TWord)
-  | other
-  deriving DecidableEq, Repr
-
-/-- current transformation: product of the open transforms, outermost first -/
-def ctmOf : List Scope → TWord
-  | [] => []
-  | .t w :: s => ctmOf s ++ w
-  | _ :: s => ctmOf s
-
-/-- open glyph clips, innermost first, each with the transformation it was pushed under -/
-def clipsOf : List Scope → List (Gid × TWord)
-  | [] => []
-  | .clipG g c :: s => (g, c) :: clipsOf s
-  | _ :: s => clipsOf s
-
-structure Draw where
-  ctm : TWord
-  clips : List (Gid × TWord)
-  brush : Brush
-  deriving DecidableEq, Repr
-
-/-- what gets drawn by a stream of primitive callbacks, starting with the scopes `s` open -/
-def draws : List Scope → List Event → List Draw
-  | _, [] => []
-  | s, .pushT w :: es => draws (.t w :: s) es
-  | s, .popT :: es => draws s.tail es
-  | s, .pushClipGlyph g :: es => draws (.clipG g (ctmOf s) :: s) es
-  | s, .pushClipBox _ :: es => draws (.other :: s) es
-  | s, .popClip :: es => draws s.tail es
-  | s, .pushLayer _ :: es => draws (.other :: s) es
-  | s, .popLayer _ :: es => draws s.tail es
-  | s, .fill b :: es => ⟨ctmOf s, clipsOf s, b⟩ :: draws s es
-  | s, .fillGlyph _ _ _ :: es => draws s es
-  | s, .cached _ :: es => draws s es
-
-/-- calls a fill-only subtree makes before its first `pop_transform` -/
-def IsPre : Event → Prop
-  | .pushT _ => True
-  | .fill _ => True
-  | .cached _ => True
-  | _ => False
-
-/-- … and from then on -/
-def IsPop : Event → Prop
-  | .popT => True
-  | .cached _ => True
-  | _ => False
 
 private theorem draws_pops (pops : List Event) (hp : ∀ e ∈ pops, IsPop e) :
     ∀ s, draws s (pops ++ [.popClip]) = [] := by
